@@ -1,15 +1,84 @@
 import AlphaG.Model.Matching
+import AlphaG.Driver.C17
 /-
 Line-protocol handlers for C13:
 
 * `ranges <0/1 string>` → `ok <k> s-e s-e …` (the ranges of `contiguous_ranges` in the model's
   order; the ring size is the length of the string, 256 for the detector)
 * `w2c <wire>` → `ok <pad column>`; `c2w <pad column>` → `ok <first> <last>`
+* `match <first wire> <8 × (n floats…)> <k> <k × (row n floats…)>` → `ok <m> <m × (t wire z[nm]
+  wire-amplitude pad-amplitude)>`: `match_column_inputs` on the wires `first..first+8` with the
+  given deconvolved inputs and a pad column whose listed rows carry the given inputs (all other
+  of the 576 rows empty). `z` is printed rounded to 1e-9 m (it goes through `ln`), amplitudes as
+  bit patterns. The sorter of the driver is a stable insertion sort (cases have no ties).
 The avalanche rotation / mirror checks are implementation-against-implementation oracles of
 the harness and need no request.
 -/
 namespace AlphaG.Driver.C13
-open AlphaG AlphaG.Ranges AlphaG.Matching
+open AlphaG AlphaG.Ranges AlphaG.Matching AlphaG.Deconv AlphaG.Driver.C17
+
+/-- The `f64` geometry: `PAD_PITCH_Z = DETECTOR_LENGTH / 576`, half length `0.5 * DETECTOR_LENGTH`. -/
+def floatGeo : Geo Float where
+  log := Float.log
+  ofNat := Float.ofNat
+  half := 0.5
+  two := 2.0
+  width := 2.304 / 576.0
+  halfLength := 0.5 * 2.304
+
+/-- Insert index `i` into a list of indices sorted by descending key (after equal keys). -/
+def insertDesc (keys : Array Float) (i : Nat) : List Nat → List Nat
+  | [] => [i]
+  | j :: rest => if keys[j]! < keys[i]! then i :: j :: rest else j :: insertDesc keys i rest
+
+/-- A stable descending sort as a permutation of indices. -/
+def floatSorter : Sorter Float where
+  perm := fun keys => (List.range keys.length).foldl (fun acc i => insertDesc keys.toArray i acc) []
+
+/-- Parse `k` groups `<row> <n> <n floats>`. -/
+def takeRows : Nat → List String → Option (List (Nat × List Float) × List String)
+  | 0, rest => some ([], rest)
+  | k + 1, r :: rest =>
+    match r.toNat?, takeFloats rest with
+    | some row, some (fs, rest2) =>
+      match takeRows k rest2 with
+      | some (rows, rest3) => some ((row, fs) :: rows, rest3)
+      | none => none
+    | _, _ => none
+  | _ + 1, [] => none
+
+def takeLists : Nat → List String → Option (List (List Float) × List String)
+  | 0, rest => some ([], rest)
+  | k + 1, rest =>
+    match takeFloats rest with
+    | some (fs, rest2) =>
+      match takeLists k rest2 with
+      | some (ls, rest3) => some (fs :: ls, rest3)
+      | none => none
+    | none => none
+
+def showAvalanche (a : Avalanche Float) : String :=
+  s!"{a.t} {a.wire} {(a.z * 1e9).round.toInt64} {showFloat a.wireAmp} {showFloat a.padAmp}"
+
+def matchAnswer (args : List String) : String :=
+  match args with
+  | w0S :: rest =>
+    match w0S.toNat?, takeLists 8 rest with
+    | some w0, some (wireInputs, kS :: rest2) =>
+      match kS.toNat? with
+      | some k =>
+        match takeRows k rest2 with
+        | some (rows, []) =>
+          let column := (List.range nRows).map fun r =>
+            match rows.find? (·.1 == r) with
+            | some p => p.2
+            | none => []
+          let av := matchColumn floatOps floatGeo floatSorter (List.range' w0 8) wireInputs column
+          (s!"ok {av.length} " ++ " ".intercalate (av.map showAvalanche)).trimAscii.toString
+        | _ => "bad-request"
+      | none => "bad-request"
+    | _, _ => "bad-request"
+  | [] => "bad-request"
 
 def parseOcc (s : String) : Option (List Bool) :=
   s.toList.mapM fun c => if c == '1' then some true else if c == '0' then some false else none
@@ -31,6 +100,7 @@ def handle (cmd : String) (args : List String) : Option String :=
     match c.toNat? with
     | some c => some s!"ok {(padColumnToWires c).1} {(padColumnToWires c).2}"
     | none => some "bad-request"
+  | "match", rest => some (matchAnswer rest)
   | _, _ => none
 
 end AlphaG.Driver.C13
